@@ -8,5 +8,9 @@ HARNESSES = [
      'rungs': {'quick': [{'defines': ['NSTEP=2'], 'bound': 'arbitrary admitted state (counts 0..1000/300/300, sizes 0..100000, limits symbolic) followed by 2 canFit/update steps with payload sizes 1..5000', 'timeout': 250}],
                'thorough': [{'defines': ['NSTEP=4'], 'bound': 'as quick with 4 steps', 'timeout': 2400, 'jobs': 16}, {'defines': ['NSTEP=3'], 'bound': '3 steps', 'timeout': 900, 'jobs': 16}]}},
 ]
+import importlib.util as _ilu
+_rp = _ilu.spec_from_file_location('realspec', os.path.join(os.path.dirname(os.path.abspath(__file__)), '..', 'real', 'spec.py'))
+_real = _ilu.module_from_spec(_rp); _rp.loader.exec_module(_real)
+HARNESSES += [x for x in _real.MEMPOOL_HARNESSES if x['name'] == 'h_mempool_vbk']
 EXPLANATION = 'The real CountingContext header runs symbolically from an arbitrary invariant-satisfying state (inductive step), so block limits are decided for PopData of any length.'
 ASSUMPTIONS = ['toy payload types with symbolic estimateSize(); stateful validity of generatePopData() on the real tip and side-effect freedom of the temporary block are outside (generic rollback mechanisms are decided in C01/C02/C07)']
